@@ -244,6 +244,7 @@ func runC06(c *Ctx) {
 	checkNoRelabelAsMissing(c, "reader-requires-descriptor.no-relabel")
 	checkDeleteBundleCallers(c, "immutable-after.delete-bundle-callers")
 	checkGenericErrorDiscipline(c, "pkg/core")
+	checkUploadBatchProtocol(c, "descriptor-last.batch-protocol")
 }
 
 // checkSilentSkipOnlyNotExists: in a worker loop `for k := range input { v, err := f(k); if err != nil { ... continue } ; output <- ok }`
